@@ -135,6 +135,12 @@ def c14():
         out += r.integers(-2, 3, size=out.shape)
         return np.round(out)
 
+    def nan_batch(k):
+        b = batch(k)
+        b[::2, :, -1] = np.nan
+        b[1::3, :, 0] = np.nan
+        return b
+
     def fn(a, **k):
         return waveforms.compute_spike_features(a, **k)
     return [
@@ -143,6 +149,9 @@ def c14():
              dtypes={0: [F32, I16, I32, I64]}, tol_dtype=1e-6, tol=1e-12, skip=("readonly",)),
         dict(key="compute_spike_features:1-channel", make=lambda s: ([batch(2, nc=1)], dict(fs=30000, recovery_duration_ms=0.16, return_peak_channel=True)), fn=fn, args=(0,),
              dtypes={0: [F32, I16]}, tol_dtype=1e-6, tol=1e-12, skip=("readonly",)),
+        # NaN-padded channels (waveforms at the probe ends, as the extractor delivers them - there as a swapped-axes view): the NaN are zeroed in the caller's array by design
+        dict(key="compute_spike_features:nan-padded", make=lambda s: ([nan_batch(3)], dict(fs=30000, recovery_duration_ms=0.16, return_peak_channel=True)), fn=fn, args=(0,),
+             inplace=(0,), dtypes={0: [F32]}, tol_dtype=1e-6, tol=1e-12, skip=("readonly",)),
     ]
 
 
